@@ -261,18 +261,20 @@ def checkFinal (n : Net) (rm : List Ix) (prog : Program) (st : Axes) : Except St
       else .ok ()
     | _ => .error "not exactly one node left at the end"
 
+/-- the step `s` contracts the two children of the tree node `x` (in either orientation) -/
+def nodeMatches (s : Step) : BT → Bool
+  | .node l r => sameSet s.parent (l.leaves ++ r.leaves) &&
+      ((sameSet s.left l.leaves && sameSet s.right r.leaves) ||
+       (sameSet s.left r.leaves && sameSet s.right l.leaves))
+  | .leaf _ => false
+
 /-- clause 5: the steps are the internal nodes of the tree -/
 def matchesTree (n : Net) (t : BT) (prog : Program) : Except String Unit :=
   if !(sameSet t.leaves (List.range n.inputs.length) && t.leaves.length == n.inputs.length) then
     .error "the tree's leaves are not exactly the inputs"
   else if prog.steps.length != t.internal.length then
     .error "number of steps differs from the number of internal nodes"
-  else if prog.steps.all fun s => t.internal.any fun
-      | .node l r => sameSet s.parent (l.leaves ++ r.leaves) &&
-          ((sameSet s.left l.leaves && sameSet s.right r.leaves) ||
-           (sameSet s.left r.leaves && sameSet s.right l.leaves))
-      | .leaf _ => false
-    then .ok ()
+  else if prog.steps.all fun s => t.internal.any (nodeMatches s) then .ok ()
   else .error "a step is not an internal node of the tree with its two children"
 
 /-- clauses 1–4: the program on its own (no tree) -/
